@@ -29,25 +29,25 @@ where
         // and write that to the fn write_xml(&self, writer: &mut W) -> WriterResult<()> {
 
         writeln!(writer, "Rc::new(restrictions::Restrictions {{")?;
-        if let Some(min_inclusive) = &self.min_inclusive {
+        if let Some(min_inclusive) = parse_facet::<i32>("min_inclusive", self.min_inclusive.as_deref()) {
             writeln!(writer, "   min_inclusive: Some({min_inclusive}), ")?;
         }
-        if let Some(max_inclusive) = &self.max_inclusive {
+        if let Some(max_inclusive) = parse_facet::<i32>("max_inclusive", self.max_inclusive.as_deref()) {
             writeln!(writer, "   max_inclusive: Some({max_inclusive}), ")?;
         }
-        if let Some(min_exclusive) = &self.min_exclusive {
+        if let Some(min_exclusive) = parse_facet::<i32>("min_exclusive", self.min_exclusive.as_deref()) {
             writeln!(writer, "   min_exclusive: Some({min_exclusive}), ")?;
         }
-        if let Some(max_exclusive) = &self.max_exclusive {
+        if let Some(max_exclusive) = parse_facet::<i32>("max_exclusive", self.max_exclusive.as_deref()) {
             writeln!(writer, "   max_exclusive: Some({max_exclusive}), ")?;
         }
-        if let Some(length) = &self.length {
+        if let Some(length) = parse_facet::<usize>("length", self.length.as_deref()) {
             writeln!(writer, "   length: Some({length}), ")?;
         }
-        if let Some(min_length) = &self.min_length {
+        if let Some(min_length) = parse_facet::<usize>("min_length", self.min_length.as_deref()) {
             writeln!(writer, "   min_length: Some({min_length}), ")?;
         }
-        if let Some(max_length) = &self.max_length {
+        if let Some(max_length) = parse_facet::<usize>("max_length", self.max_length.as_deref()) {
             writeln!(writer, "   max_length: Some({max_length}), ")?;
         }
 
@@ -66,6 +66,17 @@ where
 
         Ok(())
     }
+}
+
+/// The run-time check carries bounds as `i32` and lengths as `usize`: a facet value that is not
+/// such a number cannot be enforced and must not be pasted into the output.
+fn parse_facet<T: std::str::FromStr>(facet: &str, value: Option<&str>) -> Option<T> {
+    let value = value?;
+    let parsed = value.trim().parse::<T>().ok();
+    if parsed.is_none() {
+        log::warn!("facet {facet} with value {value:?} is not supported and is not enforced");
+    }
+    parsed
 }
 
 pub fn build_restrictions<'n>(restriction: Node<'n, 'n>) -> Restrictions {
